@@ -264,6 +264,8 @@ func drawC16(t *rapid.T, x *X) *Case {
 	c.Opts.WarmStats = c.Opts.Stats && gspec.U(t, 5, "warmstats") == 0
 	c.Opts.Debug = gspec.U(t, 12, "debug") == 0
 	c.Opts.AllowInvalid = gspec.U(t, 4, "allowinv") == 0
+	// Recover(false) is one of "the other runtime options": a sixth of the cases
+	c.Opts.NoRecover = gspec.U(t, 6, "norecover") == 0 && !c.Opts.WarmStats
 	c.Aux = map[string]int{"mode": gspec.U(t, 10, "budgetmode"), "frac": gspec.U(t, 100, "budgetfrac")}
 	return c
 }
@@ -409,9 +411,39 @@ func checkC16(x *X, c *Case, strict bool) *Outcome {
 		budget := cc.Opts.MaxExpr
 		resp, ctx := runReal(x, pk, &cc, 0)
 		o.Evals++
-		if resp.Panicked {
+		if resp.Panicked && !cc.Opts.NoRecover {
 			o.Viol = viol(pk, &cc, "panic_escapes", fmt.Sprintf("a panic escaped Parse: %v", resp.PanicVal), "", describeResp(resp))
 			return o
+		}
+		if cc.Opts.NoRecover {
+			// Recover(false): a panic - of a code block, or the one that ends an exhausted budget -
+			// reaches the caller instead of being returned. Claimed here: the budget still bounds
+			// the parse (checked below), a sufficient budget gives what the unbounded parse gives
+			// (the same escaping panic included), an exhausted one ends in the budget error,
+			// returned or escaping, unless a code block panicked first.
+			o.Tags = append(o.Tags, "recover_off")
+			if uint64(len(ctx.Events)) > budget {
+				o.Viol = viol(pk, &cc, "budget_exceeded", fmt.Sprintf("MaxExpressions(%d) but %d code blocks ran", budget, len(ctx.Events)), "", describeResp(resp))
+				return o
+			}
+			if !diverges && budget >= n && rU != nil {
+				if resp.Panicked != rU.Panicked || fmt.Sprint(resp.PanicVal) != fmt.Sprint(rU.PanicVal) ||
+					(!resp.Panicked && (resp.HasErr != rU.HasErr || resp.ErrText != rU.ErrText || vrt.Canon(resp.Value) != vrt.Canon(rU.Value))) {
+					o.Viol = viol(pk, &cc, "sufficient_budget_changes_result", fmt.Sprintf("N=%d, MaxExpressions(%d), Recover(false): result differs from the unbounded parse (panic escaped: unbounded %v %v, bounded %v %v)", n, budget, rU.Panicked, rU.PanicVal, resp.Panicked, resp.PanicVal), describeResp(rU), describeResp(resp))
+					return o
+				}
+				o.Tags = append(o.Tags, "budget_sufficient")
+			} else if !resp.Panicked && (!hasMaxExprErr(resp) || resp.Value != nil) {
+				o.Nontrivial = true
+				o.Viol = viol(pk, &cc, "exhausted_budget_must_report", fmt.Sprintf("MaxExpressions(%d), Recover(false): want the %q error, returned or escaping", budget, maxExprMsg), "", describeResp(resp))
+				return o
+			} else if resp.Panicked && !strings.Contains(fmt.Sprint(resp.PanicVal), maxExprMsg) && !planPanics(cc.Plan) {
+				o.Viol = viol(pk, &cc, "exhausted_budget_must_report", fmt.Sprintf("MaxExpressions(%d), Recover(false): the escaping panic is neither the budget error nor one of the plan: %v", budget, resp.PanicVal), "", describeResp(resp))
+				return o
+			} else {
+				o.Nontrivial = true
+			}
+			continue
 		}
 		// (iii) independent bound: code-block events <= budget
 		if uint64(len(ctx.Events)) > budget {
@@ -470,4 +502,17 @@ func checkC16(x *X, c *Case, strict bool) *Outcome {
 	}
 	o.Observe = fmt.Sprintf("diverges=%v steps=%d mode=%d opts=%+v", diverges, refU.Stats.Steps, mode, c.Opts)
 	return o
+}
+
+// planPanics reports whether the fault plan lets some code block panic.
+func planPanics(p *vrt.Plan) bool {
+	if p == nil {
+		return false
+	}
+	for _, f := range p.Faults {
+		if strings.HasPrefix(f.Kind, "panic") {
+			return true
+		}
+	}
+	return false
 }
